@@ -237,7 +237,8 @@ var unionPatterns = []*regexp.Regexp{
 	// UNION SELECT null, null, ...
 	regexp.MustCompile(`(?i)\bUNION\s+(ALL\s+)?SELECT\s+NULL(\s*,\s*NULL)+`),
 	// UNION SELECT with information_schema
-	regexp.MustCompile(`(?i)\bUNION\s+(ALL\s+)?SELECT\s+.*\binformation_schema\b`),
+	// (?s): the select list may continue on the following lines
+	regexp.MustCompile(`(?is)\bUNION\s+(ALL\s+)?SELECT\s+.*\binformation_schema\b`),
 }
 
 func (r *UnionInjectionRule) Check(sql string) []Finding {
